@@ -158,6 +158,16 @@ def run_case(case, ctx):
             e = [ref_cycles(c, 300.0, q_), ref_load(c, 1e5, q_)]
             if not _close(g, e, 1e-9):
                 ok, bad = False, {"type": getattr(conv, "__name__", "0-d array"), "p": q_, "got": g, "expected": e}
+    # arrays of whole numbers on both sides of the knee, in signed and unsigned integer types (cycle counters are often unsigned)
+    Ni = np.array([max(1, int(c["ND"] / 30)), int(c["ND"] * 20)])
+    Li = np.array([max(1, int(c["SD"] / 2)), int(c["SD"] * 3) + 1])
+    for dt in (np.int64, np.uint64, np.uint32, np.int32):
+        for series in (False, True):
+            wrap = (lambda a: pd.Series(a)) if series else (lambda a: a)
+            g = [np.asarray(wc.cycles(wrap(Li.astype(dt)), 0.5), dtype=float), np.asarray(wc.load(wrap(Ni.astype(dt)), 0.5), dtype=float)]
+            e = [np.array([ref_cycles(c, float(v), 0.5) for v in Li]), np.array([ref_load(c, float(v), 0.5) for v in Ni])]
+            if not (_close(g[0], e[0], 1e-9) and _close(g[1], e[1], 1e-9)):
+                ok, bad = False, {"type": np.dtype(dt).name, "series": series, "got": g, "expected": e, "loads": Li, "cycles": Ni}
     ctx.check("integer_arguments==float_arguments", ok, observed=bad)
     ci = {k: (int(round(v)) if k in ("SD", "ND") else v) for k, v in c.items()}
     cf = {k: float(v) for k, v in ci.items()}
